@@ -851,6 +851,17 @@ class Interp(object):
                     if ck not in self.promoted_cache:
                         self.promoted_cache[ck] = self.value_from_const(ty, o["val"], fr.env)
                     return self.promoted_cache[ck]
+                # a generic associated const (e.g. a per-N mask): interpret its initialiser under the caller's parameters
+                cb = self.facts.body(u["key"])
+                if cb is not None and cb.get("mir") is not None and not (cb.get("sig") or {}).get("inputs"):
+                    envk = tuple(sorted((k_, v_) for k_, v_ in fr.env.items() if isinstance(v_, int)))
+                    ck = ("gconst", u["key"], envk)
+                    if ck not in self.promoted_cache:
+                        outs = self.call_mir(cb, cb["mir"], [], State(), dict(fr.env), fr.depth + 1, ())
+                        if len(outs) != 1 or outs[0].kind != "return" or not isinstance(outs[0].value, W):
+                            raise Undecided("unevaluated const %s" % u["path"])
+                        self.promoted_cache[ck] = outs[0].value
+                    return self.promoted_cache[ck]
                 raise Undecided("unevaluated const %s" % u["path"])
             if ty["k"] == "tuple" and not ty["ts"]:
                 return UNIT
@@ -951,7 +962,7 @@ class Interp(object):
             if kind == "Transmute" and isinstance(v, Ptr) and ty["k"] in ("uint", "int"):
                 # address of an allocation: non-null and maximally aligned (only used by debug pointer checks)
                 return W(ty["w"], val=0x10000 * (v.cell + 1))
-            if kind in ("Transmute", "PtrToPtr") or kind.startswith("PointerCoercion"):
+            if kind in ("Transmute", "PtrToPtr", "Subtype") or kind.startswith("PointerCoercion"):
                 return v
             raise Undecided("cast " + kind)
         if k == "aggregate":
@@ -1041,6 +1052,24 @@ class Interp(object):
                     ov = (p != (r.sval() if a.signed else r.val))
                     return Agg("tuple", None, 0, (r, wbool(ov)))
                 return r
+            if not a.signed and (a.val is not None or b.val is not None):
+                # unsigned multiplication by a constant: shift-and-add in double width (exact bit functions);
+                # the overflow flag is "some bit of the high half is set"
+                sym, k = (b, a.val) if a.val is not None else (a, b.val)
+                w2 = 2 * a.width
+                wide = W(w2, bits=sym.all_bits() + [ZERO] * a.width)
+                acc = W(w2, val=0)
+                for sh in range(a.width):
+                    if (k >> sh) & 1:
+                        acc = w_add(acc, w_shl(wide, sh))[0]
+                bits = acc.all_bits()
+                lo = W(a.width, bits=bits[:a.width]) if acc.val is None else W(a.width, val=acc.val & ((1 << a.width) - 1))
+                if op == "MulWithOverflow":
+                    ov = ZERO
+                    for x in bits[a.width:]:
+                        ov = B.bor(ov, x)
+                    return Agg("tuple", None, 0, (lo, W(1, bits=[ov]) if ov is None or ov[0] else wbool(ov[1])))
+                return lo
             if op == "MulWithOverflow":
                 return Agg("tuple", None, 0, (wtop(a.width, a.signed), wtop(1)))
             return wtop(a.width, a.signed)
@@ -1368,6 +1397,11 @@ class Interp(object):
     def do_call(self, fr, st, t, pc):
         fn = t["func"]
         if "indirect" in fn:
+            # call through a function pointer: decided when the pointer is a known function item (or closure)
+            target = self.operand(fr, st, fn["indirect"])
+            args = [self.operand(fr, st, a) for a in t["args"]]
+            if isinstance(target, Opaque) and target.kind == "fndef" or (isinstance(target, Agg) and target.kind == "closure"):
+                return self.std.call_closure(self, fr, st, pc, target, args)
             raise Undecided("indirect call in %s" % fr.fn_path)
         args = [self.operand(fr, st, a) for a in t["args"]]
         r = fn.get("resolved")
